@@ -446,3 +446,76 @@ def pop_point_order(ctx, prog, rule):
     ctx.ob(rule, "pop-then-push/%s" % short(f.path), okp and okq, "one pop_front from queues[i] per record, pushed to the output in index order")
     clears = calls_where(f, lambda c, t, R: c.endswith("Vec::<T, A>::clear") and strip(R.operand(t["args"][0])) == ("param", 2))
     ctx.ob(rule, "output-cleared/%s" % short(f.path), len(clears) == 1 and bool(pushes) and f.dominates(clears[0], pushes[0]), "the output vector is cleared before values are pushed")
+
+
+class _UnitMismatch(Exception):
+    pass
+
+
+def _unit(prog, t, depth=0):
+    """'bytes' | 'bits' | '8' (the conversion factor) | 'n' (a plain count / unknown constant factor) of a capacity
+    expression; raises _UnitMismatch when bytes and bits are added or subtracted"""
+    t = strip(t)
+    while t[0] == "cast":
+        t = strip(t[2])
+    if depth > 30:
+        return "n"
+    if t[0] == "const" and isinstance(t[2], int):
+        return "8" if t[2] == 8 else "bytes"
+    if t[0] == "call":
+        last = t[1].rsplit("::", 1)[-1].split("<")[0]
+        if last in ("len",):
+            return "bytes"                                  # one byte (or a fixed number of bytes) per prototype entry
+        if last in ("sum", "bit_size", "integer_bits"):
+            return "bits"
+        if last in ("saturating_sub", "saturating_add", "wrapping_sub", "wrapping_add", "checked_sub", "checked_add", "min", "max") and len(t[2]) == 2:
+            a, b = _unit(prog, t[2][0], depth + 1), _unit(prog, t[2][1], depth + 1)
+            if {a, b} == {"bytes", "bits"}:
+                raise _UnitMismatch("%s of %s and %s: %s" % (last, a, b, tree_str(strip_deep(t))[:120]))
+            return a if a in ("bytes", "bits") else b
+        return "n"
+    if t[0] == "binop":
+        a, b = _unit(prog, t[2], depth + 1), _unit(prog, t[3], depth + 1)
+        if t[1] in ("Add", "Sub"):
+            if {a, b} == {"bytes", "bits"}:
+                raise _UnitMismatch("%s of %s and %s: %s" % (t[1], a, b, tree_str(strip_deep(t))[:120]))
+            return a if a in ("bytes", "bits") else b
+        if t[1] == "Mul":
+            if "8" in (a, b):
+                other = b if a == "8" else a
+                return "bits" if other in ("bytes", "8") else other
+            return a if a in ("bytes", "bits") else (b if b in ("bytes", "bits") else "n")
+        if t[1] == "Div":
+            if b == "8" and a == "bits":
+                return "bytes"
+            return "n" if a == b else a
+    if t[0] == "phi":
+        us = {_unit(prog, a, depth + 1) for a in t[1]}
+        return us.pop() if len(us) == 1 else "n"
+    return "n"
+
+
+def packet_capacity_units(ctx, prog, rule):
+    """get_max_packet_points divides the space of a 64 KiB packet by the size of a point: both in the same unit.  The
+    expression is typed with bytes / bits (x8 converts); adding or subtracting a byte count and a bit count, or dividing
+    bytes by bits, makes packets overflow for large prototypes"""
+    f = prog.fn("pc_writer::get_max_packet_points")
+    ctx.fn_seen(f)
+    R = Resolver(f, max_depth=30)
+    verdict, desc = None, "no Ok(quotient) found"
+    for bi, si, cls, p in f.ret_assignments():
+        if cls != "ok":
+            continue
+        v = strip(strip(R.rvalue(p))[2][0])
+        while v[0] == "cast":
+            v = strip(v[2])
+        if not (v[0] == "binop" and v[1] == "Div"):
+            continue
+        try:
+            un, ud = _unit(prog, v[2]), _unit(prog, v[3])
+            okv = un == ud == "bits" or un == ud == "bytes"
+            desc = "capacity %s / point size %s" % (un, ud)
+        except _UnitMismatch as e:
+            okv, desc = False, str(e)
+        verdict = okv if verdict is None else (verdict and okv)
+    ctx.ob(rule, "capacity-units/get_max_packet_points", verdict, "get_max_packet_points: %s (must be bits / bits)" % desc)
